@@ -287,7 +287,10 @@ class EvalMixin:
                 i = names.index(attr)
                 fk = kind_of_annotation(spec["fields"][i][1], self.uni)
                 t = [c0, c1, c2][i](base.t)
-                assume_typed(st, t, fk, base.h)
+                # the component only has this type if the value really is of this class (casts are unchecked)
+                ids = sorted(self.uni.class_id(c) for c in self.uni.subclasses(k[1]) if c in self.uni.val_classes)
+                isit = z3.And(is_VCon(base.t), z3.Or([tag(base.t) == j for j in ids]))
+                ops.assume_typed_if(st, isit, t, fk, base.h)
                 return SV(t, fk, base.h)
         if k.head == "opaque" and attr in self.uni.opaque_attrs.get(k[1], {}):
             # observer attribute of an opaque collaborator object (heap-independent, read in the entry heap)
